@@ -35,8 +35,8 @@ Definition cobs := (Z * list pobs * list (Z * Z) * list robs)%type.  (* key, ptr
 Definition oobs := (bool * Z * list cobs)%type.           (* failed?, db size, channels *)
 
 Definition case_t : Type :=
-  (Z * Z * Z * list chdecl * list (Z * Z) * list (op * oobs))%type.
-  (* cap, threshold numerator, log2 denominator, channels, ranges, steps *)
+  (Z * Z * list chdecl * list (Z * Z) * list (op * oobs))%type.
+  (* file size cap, GC threshold in bytes, channels, ranges, steps *)
 
 (* ---- the model's observation ---- *)
 Definition obs_series (s : rseries) : sobs :=
@@ -79,11 +79,11 @@ Fixpoint zlist_eqb (a b : list Z) : bool :=
 
 Definition case_ops (c : case_t) : list op := map fst (snd c).
 Definition case_model (c : case_t) : list oobs :=
-  let '(cap, num, k, chs, ranges, steps) := c in
-  model_trace (mk_gcfg cap num k) ranges (init_db chs) (map fst steps).
+  let '(cap, thr, chs, ranges, steps) := c in
+  model_trace (mk_gcfg cap thr) ranges (init_db chs) (map fst steps).
 
 Definition mismatch (c : case_t) : bool :=
-  let '(cap, num, k, chs, ranges, steps) := c in
+  let '(cap, thr, chs, ranges, steps) := c in
   negb (zlist_eqb (enc_list enc_oobs (case_model c)) (enc_list enc_oobs (map snd steps))).
 
 (* index of the first step whose observation differs (for diagnostics) *)
@@ -215,10 +215,21 @@ Definition empty_obs (chs : list chdecl) (ranges : list (Z * Z)) : oobs :=
   (false, 0, map (fun k => (k, [], [], map (fun _ => []) ranges)) (keys_of chs)).
 
 Definition ok_C04 (c : case_t) : bool :=
-  let '(cap, num, k, chs, ranges, steps) := c in
+  let '(cap, thr, chs, ranges, steps) := c in
   ok_steps chs (empty_obs chs ranges) steps.
 
 Definition violates (c : case_t) : bool := negb (ok_C04 c).
+
+(* diagnostics: indices of the steps the monitor rejects *)
+Fixpoint bad_steps_from (chs : list chdecl) (o0 : oobs) (steps : list (op * oobs)) (n : nat) : list nat :=
+  match steps with
+  | [] => []
+  | (o, o1) :: r =>
+      (if ok_step chs o0 o o1 then [] else [n]) ++ bad_steps_from chs o1 r (S n)
+  end.
+Definition bad_steps (c : case_t) : list nat :=
+  let '(cap, thr, chs, ranges, steps) := c in
+  bad_steps_from chs (empty_obs chs ranges) steps 0.
 
 Definition mismatches (cs : list case_t) : list nat := find_idx mismatch cs.
 Definition violations (cs : list case_t) : list nat := find_idx violates cs.
